@@ -3,22 +3,27 @@ import threading
 from collections.abc import Iterable, Iterator
 from types import SimpleNamespace
 
+from mpservice._common import StopRequested
+
 from ._streamer import Elem, Stream
 
 
 class TeeX:
     # Tee element
-    __slots__ = ('value', 'next', 'n', 'lock')
+    __slots__ = ('value', 'next', 'n', 'lock', 'is_exc')
     # `n`` is count of the times this element has been "consumed".
     # Once `n` is equal to the number of forks in the tee, this
     # element can be discarded. In that situation, this element must
     # be at the head of the queue.
 
-    def __init__(self, x, /):
+    def __init__(self, x, /, is_exc=False):
         self.value = x
         self.next = None
         self.n = 0
         self.lock = threading.Lock()
+        self.is_exc = is_exc
+        # If `is_exc` is True, `value` is the exception raised by `instream`.
+        # This element is the last one; every fork raises `value` upon reaching it.
 
 
 class Fork:
@@ -59,8 +64,14 @@ class Fork:
                             # is empty, the exception will be propagated, halting
                             # this fork. All the other forks will also get to this
                             # point and exit the same way.
-                            x = next(self.instream)
-                            box = TeeX(x)
+                            try:
+                                x = next(self.instream)
+                            except StopIteration:
+                                raise
+                            except (Exception, StopRequested) as e:
+                                box = TeeX(e, is_exc=True)
+                            else:
+                                box = TeeX(x)
                             self.buffer.put(box)
                             self.head.value = box
                     finally:
@@ -76,7 +87,7 @@ class Fork:
             else:
                 raise StopIteration
         else:
-            while self.next.next is None:
+            while self.next.next is None and not self.next.is_exc:
                 # During this loop while waiting on the `instream_lock`,
                 # `self.next.next` may become not None thanks to another Fork's
                 # actions.
@@ -94,9 +105,14 @@ class Fork:
                                 # `self.next.next` remains `None`.
                                 # The next call to `__next__` will land
                                 # in the first branch and raise `StopIteration`.
-                                pass
+                                box = None
+                            except (Exception, StopRequested) as e:
+                                # `instream` failed. All forks will raise this exception after
+                                # the elements obtained so far; `instream` is not used again.
+                                box = TeeX(e, is_exc=True)
                             else:
                                 box = TeeX(x)
+                            if box is not None:
                                 self.next.next = box  # IMPORTANT: this line goes before the next to avoid race.
                                 self.buffer.put(box)
                     finally:
@@ -116,6 +132,8 @@ class Fork:
 
             self.next = box.next
             self._state = 1
+            if box.is_exc:
+                raise box.value
             return box.value
 
 
